@@ -30,6 +30,7 @@ type Stats struct {
 	Sends                 int      `json:"chan_sends"`
 	Closes                int      `json:"chan_closes"`
 	AfterFuncs            int      `json:"afterfunc_callbacks_wrapped"`
+	MapRanges             int      `json:"map_ranges_ordered"`
 	SyncImports           int      `json:"sync_imports"`
 	AtomicImports         int      `json:"atomic_imports"`
 	Notes                 []string `json:"notes,omitempty"`
@@ -59,6 +60,36 @@ func Dir(srcDir, outDir string) (map[string]string, *Stats, error) {
 		names = append(names, n)
 	}
 	sort.Strings(names)
+	// which struct fields of the package are maps (decided by syntax: a field
+	// name declared with a map type and nowhere with another type)
+	mapFields = map[string]bool{}
+	other := map[string]bool{}
+	for _, n := range names {
+		f, err := parser.ParseFile(token.NewFileSet(), filepath.Join(srcDir, n), nil, 0)
+		if err != nil {
+			return nil, nil, fmt.Errorf("%s: %w", n, err)
+		}
+		ast.Inspect(f, func(nd ast.Node) bool {
+			stt, ok := nd.(*ast.StructType)
+			if !ok {
+				return true
+			}
+			for _, fl := range stt.Fields.List {
+				_, isMap := fl.Type.(*ast.MapType)
+				for _, id := range fl.Names {
+					if isMap {
+						mapFields[id.Name] = true
+					} else {
+						other[id.Name] = true
+					}
+				}
+			}
+			return true
+		})
+	}
+	for n := range other {
+		delete(mapFields, n)
+	}
 	for _, n := range names {
 		src := filepath.Join(srcDir, n)
 		out, err := File(src, st)
@@ -74,6 +105,10 @@ func Dir(srcDir, outDir string) (map[string]string, *Stats, error) {
 	}
 	return overlay, st, nil
 }
+
+// mapFields: names of struct fields of the package being rewritten that are
+// maps (set by Dir).
+var mapFields = map[string]bool{}
 
 type rw struct {
 	fset      *token.FileSet
@@ -283,6 +318,7 @@ func (r *rw) stmt(s ast.Stmt) ast.Stmt {
 	case *ast.RangeStmt:
 		r.lits(s.X)
 		r.block(s.Body)
+		r.orderMapRange(s)
 		return s
 	case *ast.SwitchStmt:
 		r.lits(s.Init)
@@ -612,6 +648,49 @@ func (r *rw) walkField(f reflect.Value) {
 			f.Set(reflect.ValueOf(ns))
 		}
 	}
+}
+
+// orderMapRange turns "for k, v := range x.f" over a map-typed struct field
+// into an iteration over simrt.MapKeys(x.f): Go randomises the order of map
+// iteration from a source the simulator does not own, and when the loop body
+// contains scheduling points (ReverseTunnelServer.Stop closing its streams)
+// the order decides the schedule. MapKeys orders the keys canonically and then
+// lets the chooser pick the rotation, so the order is explored and replayable.
+func (r *rw) orderMapRange(s *ast.RangeStmt) {
+	se, ok := s.X.(*ast.SelectorExpr)
+	if !ok || !mapFields[se.Sel.Name] || s.Key == nil || s.Tok != token.DEFINE {
+		return
+	}
+	if _, ok := se.X.(*ast.Ident); !ok {
+		return
+	}
+	copyX := func() ast.Expr {
+		return &ast.SelectorExpr{X: ast.NewIdent(se.X.(*ast.Ident).Name), Sel: ast.NewIdent(se.Sel.Name)}
+	}
+	key := "__mk_k"
+	if id, ok := s.Key.(*ast.Ident); ok && id.Name != "_" {
+		key = id.Name
+	} else if !ok {
+		return
+	}
+	val := "_"
+	if s.Value != nil {
+		id, ok := s.Value.(*ast.Ident)
+		if !ok {
+			return
+		}
+		val = id.Name
+	}
+	fetch := &ast.AssignStmt{Lhs: []ast.Expr{ast.NewIdent(val), ast.NewIdent("__mk_ok")}, Tok: token.DEFINE,
+		Rhs: []ast.Expr{&ast.IndexExpr{X: copyX(), Index: ast.NewIdent(key)}}}
+	skip := &ast.IfStmt{Cond: &ast.UnaryExpr{Op: token.NOT, X: ast.NewIdent("__mk_ok")},
+		Body: &ast.BlockStmt{List: []ast.Stmt{&ast.BranchStmt{Tok: token.CONTINUE}}}}
+	s.Body.List = append([]ast.Stmt{fetch, skip}, s.Body.List...)
+	s.Key = ast.NewIdent("_")
+	s.Value = ast.NewIdent(key)
+	s.X = call(sel("simrt", "MapKeys"), copyX())
+	r.st.MapRanges++
+	r.usesSimrt = true
 }
 
 func isSimrtWrap(c *ast.CallExpr) bool {
